@@ -105,7 +105,8 @@ def run(ctx):
             ms = [H.show(hq.peel(x["init"])) for x in hq.find(nb["body"], lambda x: x.get("k") == "LetStmt" and x["pat"].get("name") == "match_slice")]
         finally:
             H.PRETTY_RANGES = False
-        ctx.check(key[:1] == ["&data_slice[..match_generator::MIN_MATCH_LEN]"] and "&data_slice[self.suffix_idx..]" in ds, RB, "next_sequence::key-at-current-position",
+        mn_ = ctx.const("ruzstd::encoding::match_generator::MIN_MATCH_LEN")
+        ctx.check(key[:1] == ["&data_slice[..%d]" % mn_] and "&data_slice[self.suffix_idx..]" in ds, RB, "next_sequence::key-at-current-position",
                   nb["file"], "the key is the MIN_MATCH_LEN bytes at the current position", observed=[key, ds])
         want_ms = "if is_last { &match_entry.data[match_index..self.suffix_idx] } else { &match_entry.data[match_index..] }"
         ctx.check(ms == [want_ms], RB, "next_sequence::last-entry-candidate-ends-at-position", nb["file"],
@@ -123,7 +124,7 @@ def run(ctx):
         ok = len(asg) == 2
         for a in asg:
             cs = dom.conds(ix, a)
-            ok = ok and any(c.startswith("(ruzstd::encoding::match_generator::MIN_MATCH_LEN <= ") and "common_prefix_len" in
+            ok = ok and any(c.startswith("(%d <= " % ctx.const("ruzstd::encoding::match_generator::MIN_MATCH_LEN")) and "common_prefix_len" in
                             hq.Canon(nb, inline=True, force=True, max_depth=3)(_cond_node(ix, a, c)) for c in cs)
             ok = ok and H.show(hq.peel(a["r"])) == "Option::Some((offset, match_len))"
         ctx.check(ok, RD, "next_sequence::candidate-only-after-recheck", nb["file"],
@@ -135,7 +136,7 @@ def run(ctx):
         ctx.check(mn >= 3, RD, "MIN_MATCH_LEN>=3", "", "the format's minimum match length is 3", observed=mn)
         # best candidate selection: longer wins, ties by smaller offset
         sel = [H.show(hq.peel(x["cond"])) for x in hq.find(nb["body"], lambda x: x.get("k") == "If" and "old_match_len" in H.show(x["cond"]))]
-        ctx.check("((match_len > old_match_len) || ((match_len == old_match_len) && (offset < old_offset)))" in sel, RD, "next_sequence::selection", nb["file"],
+        ctx.check("((old_match_len < match_len) || ((match_len == old_match_len) && (offset < old_offset)))" in sel, RD, "next_sequence::selection", nb["file"],
                   "longer match wins; equal length prefers the nearer one", observed=sel)
     ctx.guard(RD, "recheck", recheck)
 
